@@ -115,8 +115,8 @@ func (b *replayBuilder) expr(v Val, depth int) string {
 			b.approx = append(b.approx, "string value chosen arbitrarily")
 			return ts + `("")`
 		case u.Info()&types.IsFloat != 0:
-			b.fail = "floating-point input (uninterpreted in the model)"
-			return "0"
+			b.approx = append(b.approx, "floating-point input set to 1 (floats are uninterpreted in the model)")
+			return ts + "(1)"
 		}
 	case *types.Pointer:
 		ref, ok := b.val(v.L[0])
